@@ -39,6 +39,10 @@ pub enum Lat {
     /// busy for this many virtual ms: every poll drains the task's cooperative budget with
     /// immediately ready tokio operations (as draining a full channel would) before yielding
     Busy(u64),
+    /// completes after this many ms and, in the poll in which it completes, first uses up the
+    /// task's whole cooperative budget (a future that did a lot of ready work in that poll): the
+    /// next tokio operation of whoever awaits it (a lock, a channel, a semaphore) yields once
+    MsDrain(u64),
 }
 
 #[derive(Clone, Copy, Debug, PartialEq, Eq, Hash, Serialize, Deserialize)]
@@ -201,6 +205,21 @@ pub fn run_step(
                     shared.gate.notified().await;
                 }
             }
+            Lat::MsDrain(ms) => {
+                if ms > 0 {
+                    tokio::time::sleep(Duration::from_millis(ms)).await;
+                }
+                std::future::poll_fn(|cx| {
+                    let mut guard = 0;
+                    while tokio::task::coop::has_budget_remaining() && guard < 10_000 {
+                        let mut f = Box::pin(tokio::task::coop::consume_budget());
+                        let _ = std::future::Future::poll(f.as_mut(), cx);
+                        guard += 1;
+                    }
+                    Poll::Ready(())
+                })
+                .await;
+            }
             Lat::Busy(ms) => {
                 let until = std::time::Instant::now() + Duration::from_millis(ms);
                 // never yields voluntarily: only the exhausted budget makes a poll return
@@ -277,5 +296,58 @@ impl tower::Service<Req> for Scripted {
             std::panic::panic_any(ScriptedPanic);
         }
         run_step(self.shared.clone(), serial, req, step)
+    }
+}
+
+/// Wrapper whose *clones* need `ms` of virtual time after their creation before they report
+/// readiness (a pooled connection being set up, a paced backend); the wrapped original is ready at
+/// once. Pending readiness is woken by a timer, not by busy-polling.
+pub struct SlowClones<S> {
+    inner: S,
+    ms: u64,
+    not_before: Option<std::pin::Pin<Box<tokio::time::Sleep>>>,
+}
+
+impl<S> SlowClones<S> {
+    pub fn new(inner: S, ms: u64) -> Self {
+        SlowClones {
+            inner,
+            ms,
+            not_before: None,
+        }
+    }
+}
+
+impl<S: Clone> Clone for SlowClones<S> {
+    fn clone(&self) -> Self {
+        SlowClones {
+            inner: self.inner.clone(),
+            ms: self.ms,
+            not_before: (self.ms > 0)
+                .then(|| Box::pin(tokio::time::sleep(Duration::from_millis(self.ms)))),
+        }
+    }
+}
+
+impl<S, R> tower::Service<R> for SlowClones<S>
+where
+    S: tower::Service<R>,
+{
+    type Response = S::Response;
+    type Error = S::Error;
+    type Future = S::Future;
+
+    fn poll_ready(&mut self, cx: &mut Context<'_>) -> Poll<Result<(), S::Error>> {
+        if let Some(s) = self.not_before.as_mut() {
+            if std::future::Future::poll(s.as_mut(), cx).is_pending() {
+                return Poll::Pending;
+            }
+            self.not_before = None;
+        }
+        self.inner.poll_ready(cx)
+    }
+
+    fn call(&mut self, req: R) -> Self::Future {
+        self.inner.call(req)
     }
 }
